@@ -179,7 +179,7 @@ theorem spec_execOne (env : PEnv) (mh : Match) (st : ExecSt) {w : World} {c : By
       | none => intro h; cases h
       | some fd =>
         dsimp only
-        refine wpo_bind_mono (spec_execP fd fr1) ?_
+        refine wpo_bind_mono (spec_execP _ fd fr1) ?_
         intro rc w2 fr2
         cases fd with
         | none =>
@@ -321,7 +321,7 @@ theorem matchesExec_cons (env : PEnv) (mh : Match) (rest : MatchList) (st : Exec
 
 theorem matchesExec_factor (env : PEnv) (pre post : MatchList) (mh : Match) (st : ExecSt)
     (hty : mh.ty = .exec) (hs : mh.execStdin = true) :
-    matchesExec env (pre ++ mh :: post) st = (uptoFork env pre mh st).bind (afterFork env post) := by
+    matchesExec env (pre ++ mh :: post) st = (uptoFork env pre mh st).bind (afterFork env mh.argv post) := by
   induction pre generalizing st with
   | nil =>
     rw [List.nil_append, matchesExec_cons]
